@@ -826,3 +826,113 @@ Proof.
   intros A d lil l dst Hl Hd. unfold lut_dimX, lut_dimY.
   apply il_convert_correct_lemma; auto.
 Qed.
+
+(* ------------------------------------------------------------------------------------------ *)
+(** * Old-style run-length coder (dfrle.c): decode (encode row) = row for every byte row *)
+
+Lemma cnt_lit_facts : forallb (fun c => Nat.land c dfrle_dec_flag =? 0) (seq 0 128) = true.
+Proof. vm_compute. reflexivity. Qed.
+
+Lemma cnt_run_facts :
+  forallb (fun r => let c := Nat.lor dfrle_run_flag (r mod 256) mod 256 in
+                    negb (Nat.land c dfrle_dec_flag =? 0) && (Nat.land c dfrle_dec_mask =? r)) (seq 0 128) = true.
+Proof. vm_compute. reflexivity. Qed.
+
+Lemma unrle_idle_eq : forall c r,
+    unrle_sm DIdle (c :: r) =
+    if Nat.land c dfrle_dec_flag =? 0
+    then match c with 0 => unrle_sm DIdle r | _ => unrle_sm (DLit c) r end
+    else unrle_sm (DRun (Nat.land c dfrle_dec_mask)) r.
+Proof. reflexivity. Qed.
+
+Lemma unrle_lit : forall l k tail, length l = S k -> unrle_sm (DLit (S k)) (l ++ tail) = l ++ unrle_sm DIdle tail.
+Proof.
+  induction l as [|a l IH]; intros k tail H; [discriminate|].
+  simpl in H. injection H as H. change ((a :: l) ++ tail) with (a :: (l ++ tail)).
+  change (unrle_sm (DLit (S k)) (a :: l ++ tail))
+    with (a :: unrle_sm (match S k with S (S k') => DLit (S k') | _ => DIdle end) (l ++ tail)).
+  simpl app. f_equal. destruct k.
+  - destruct l; [reflexivity|discriminate].
+  - apply IH. auto.
+Qed.
+
+Lemma unrle_flush : forall lit tail,
+    length lit <= 127 -> unrle_sm DIdle (rle_flush lit ++ tail) = lit ++ unrle_sm DIdle tail.
+Proof.
+  intros lit tail H. destruct lit as [|a l]; [reflexivity|].
+  unfold rle_flush. remember (a :: l) as lit eqn:E.
+  assert (Hk : exists k, length lit = S k) by (subst; simpl; eauto). destruct Hk as [k Hk].
+  rewrite Hk. rewrite Nat.mod_small by lia.
+  change ((S k :: lit) ++ tail) with (S k :: (lit ++ tail)). rewrite unrle_idle_eq.
+  pose proof cnt_lit_facts as F. rewrite forallb_forall in F.
+  rewrite (F (S k)) by (apply in_seq; lia).
+  apply unrle_lit. auto.
+Qed.
+
+Lemma unrle_idle_run : forall r b tail,
+    r <= 127 ->
+    unrle_sm DIdle ((Nat.lor dfrle_run_flag (r mod 256) mod 256) :: b :: tail) = repeat b r ++ unrle_sm DIdle tail.
+Proof.
+  intros r b tail H. rewrite unrle_idle_eq.
+  pose proof cnt_run_facts as F. rewrite forallb_forall in F.
+  specialize (F r ltac:(apply in_seq; lia)). cbv zeta in F. apply andb_prop in F. destruct F as [F1 F2].
+  apply negb_true_iff in F1. rewrite F1. apply Nat.eqb_eq in F2. rewrite F2. reflexivity.
+Qed.
+
+Lemma run_len_le : forall b l cap, run_len b l cap <= cap.
+Proof.
+  intros b l cap. revert l. induction cap; intros l; [destruct l; simpl; lia|].
+  destruct l as [|x l]; simpl; [lia|]. destruct (x =? b); [specialize (IHcap l); lia | lia].
+Qed.
+
+Lemma run_len_split : forall b l cap, l = repeat b (run_len b l cap) ++ skipn (run_len b l cap) l.
+Proof.
+  intros b l cap. revert l. induction cap; intros l; [destruct l; reflexivity|].
+  destruct l as [|x l]; [reflexivity|]. simpl. destruct (x =? b) eqn:E; [|reflexivity].
+  apply Nat.eqb_eq in E. subst. simpl. f_equal. apply IHcap.
+Qed.
+
+Lemma rle_go_correct : forall fuel data lit tail,
+    length data <= fuel -> length lit <= dfrle_lit_flush ->
+    unrle_sm DIdle (rle_go fuel data lit ++ tail) = lit ++ data ++ unrle_sm DIdle tail.
+Proof.
+  induction fuel as [|f IH]; intros data lit tail Hf Hl.
+  - destruct data; [|simpl in Hf; lia]. simpl. apply unrle_flush. unfold dfrle_lit_flush in Hl. lia.
+  - destruct data as [|b rest].
+    + simpl. apply unrle_flush. unfold dfrle_lit_flush in Hl. lia.
+    + cbn [rle_go]. set (k := run_len b rest (dfrle_run_window - 1)).
+      assert (Hk : k <= dfrle_run_window - 1) by apply run_len_le.
+      destruct (dfrle_min_run <? S k) eqn:E.
+      * rewrite <- !app_assoc. rewrite unrle_flush by (unfold dfrle_lit_flush in Hl; lia).
+        f_equal. change ([Nat.lor dfrle_run_flag (S k mod 256) mod 256; b] ++ rle_go f (skipn (S k) (b :: rest)) [] ++ tail)
+          with ((Nat.lor dfrle_run_flag (S k mod 256) mod 256) :: b :: (rle_go f (skipn (S k) (b :: rest)) [] ++ tail)).
+        assert (Hk2 : S k <= 127) by (clearbody k; unfold dfrle_run_window in Hk; lia). rewrite unrle_idle_run by exact Hk2.
+        rewrite IH.
+        -- simpl. f_equal. rewrite app_assoc. f_equal. symmetry. apply run_len_split.
+        -- simpl. rewrite skipn_length. simpl in Hf. lia.
+        -- simpl. lia.
+      * destruct (dfrle_lit_flush <? length (lit ++ [b])) eqn:E2.
+        -- rewrite <- app_assoc. rewrite unrle_flush.
+           ++ rewrite IH; [| simpl in Hf; lia | simpl; lia]. simpl. rewrite <- app_assoc. reflexivity.
+           ++ rewrite app_length. simpl. unfold dfrle_lit_flush in Hl. lia.
+        -- rewrite IH.
+           ++ rewrite <- app_assoc. reflexivity.
+           ++ simpl in Hf. lia.
+           ++ apply Nat.ltb_ge in E2. exact E2.
+Qed.
+
+Lemma dfrle_roundtrip_lemma : forall row, dfrle_decode (dfrle_encode row) = row.
+Proof.
+  intros row. unfold dfrle_decode, dfrle_encode.
+  pose proof (rle_go_correct (length row) row [] [] (le_n _) (Nat.le_0_l _)) as H.
+  rewrite !app_nil_r in H. exact H.
+Qed.
+
+Lemma rle_image_roundtrip_lemma : forall w h bytes,
+    length bytes = w * h -> rle_image_decode (rle_image_encode w h bytes) = bytes.
+Proof.
+  intros w h bytes Hl. unfold rle_image_decode, rle_image_encode. rewrite map_map.
+  rewrite (map_ext _ (fun r => r)) by (intros; apply dfrle_roundtrip_lemma). rewrite map_id.
+  unfold rows_of. rewrite <- flat_map_concat_map.
+  rewrite <- (seq_mul_flat (fun q => nth q bytes 0) w h). rewrite <- Hl. apply map_nth_seq_id.
+Qed.
